@@ -287,3 +287,178 @@ pub fn alloc_workload(seed: u64, n: u64, files: &[&[u8]]) -> Digest {
     }
     d
 }
+
+// ------------------------------------------------------------------------------------------------
+// replay of generated cases (text written by `tzmon C19GEN`), allocation-free
+
+fn num<T: core::str::FromStr>(it: &mut core::str::SplitWhitespace<'_>) -> Option<T> {
+    it.next()?.parse().ok()
+}
+
+fn parse_type(it: &mut core::str::SplitWhitespace<'_>) -> Option<LocalTimeType> {
+    let off: i32 = num(it)?;
+    let dst: u8 = num(it)?;
+    let name = it.next()?;
+    LocalTimeType::new(off, dst != 0, if name == "-" { None } else { Some(name.as_bytes()) }).ok()
+}
+
+fn parse_day(it: &mut core::str::SplitWhitespace<'_>) -> Option<RuleDay> {
+    let kind: u8 = num(it)?;
+    let a: u16 = num(it)?;
+    let b: u8 = num(it)?;
+    let c: u8 = num(it)?;
+    Some(match kind {
+        0 => RuleDay::Julian1WithoutLeap(Julian1WithoutLeap::new(a).ok()?),
+        1 => RuleDay::Julian0WithLeap(Julian0WithLeap::new(a).ok()?),
+        _ => RuleDay::MonthWeekDay(MonthWeekDay::new(a as u8, b, c).ok()?),
+    })
+}
+
+const MAX_TYPES: usize = 16;
+const MAX_TRANSITIONS: usize = 128;
+const MAX_LEAPS: usize = 48;
+
+/// Replays every case of `text`; returns the digest and the number of cases that fitted the fixed buffers.
+pub fn replay_cases(text: &str) -> (Digest, u64) {
+    let mut d = Digest::new();
+    let mut cases = 0u64;
+    let mut types = [LocalTimeType::utc(); MAX_TYPES];
+    let mut transitions = [Transition::new(0, 0); MAX_TRANSITIONS];
+    let mut leaps = [LeapSecond::new(0, 0); MAX_LEAPS];
+    let (mut nt, mut nr, mut nl) = (0usize, 0usize, 0usize);
+    let mut rule: Option<TransitionRule> = None;
+    let mut usable = true;
+    for line in text.lines() {
+        let mut it = line.split_whitespace();
+        match it.next() {
+            Some("Z") => {
+                nt = 0;
+                nr = 0;
+                nl = 0;
+                rule = None;
+                usable = true;
+            }
+            Some("T") => match parse_type(&mut it) {
+                Some(t) if nt < MAX_TYPES => {
+                    types[nt] = t;
+                    nt += 1;
+                }
+                _ => usable = false,
+            },
+            Some("R") => match (num::<i64>(&mut it), num::<usize>(&mut it)) {
+                (Some(t), Some(i)) if nr < MAX_TRANSITIONS => {
+                    transitions[nr] = Transition::new(t, i);
+                    nr += 1;
+                }
+                _ => usable = false,
+            },
+            Some("L") => match (num::<i64>(&mut it), num::<i32>(&mut it)) {
+                (Some(t), Some(c)) if nl < MAX_LEAPS => {
+                    leaps[nl] = LeapSecond::new(t, c);
+                    nl += 1;
+                }
+                _ => usable = false,
+            },
+            Some("F") => match parse_type(&mut it) {
+                Some(t) => rule = Some(TransitionRule::Fixed(t)),
+                None => usable = false,
+            },
+            Some("A") => {
+                let r = (|| {
+                    let std = parse_type(&mut it)?;
+                    let dst = parse_type(&mut it)?;
+                    let sd = parse_day(&mut it)?;
+                    let st: i32 = num(&mut it)?;
+                    let ed = parse_day(&mut it)?;
+                    let et: i32 = num(&mut it)?;
+                    Some(AlternateTime::new(std, dst, sd, st, ed, et))
+                })();
+                match r {
+                    Some(Ok(a)) => rule = Some(TransitionRule::Alternate(a)),
+                    Some(Err(_)) => {
+                        d.i(-50);
+                        usable = false;
+                    }
+                    None => usable = false,
+                }
+            }
+            Some("Q") | Some("C") if !usable => {}
+            Some(kind @ ("Q" | "C")) => {
+                let z = match TimeZoneRef::new(&transitions[..nr], &types[..nt], &leaps[..nl], &rule) {
+                    Ok(z) => z,
+                    Err(e) => {
+                        d.i(err_code(&e));
+                        continue;
+                    }
+                };
+                if kind == "Q" {
+                    let u: i64 = match num(&mut it) {
+                        Some(u) => u,
+                        None => continue,
+                    };
+                    match z.find_local_time_type(u) {
+                        Ok(l) => {
+                            d.i(l.ut_offset() as i64);
+                            d.i(l.is_dst() as i64);
+                            d.b(l.time_zone_designation().as_bytes());
+                        }
+                        Err(e) => d.i(err_code(&e)),
+                    }
+                    match DateTime::from_timespec(u, (u as u32) % 1_000_000_000, z) {
+                        Ok(x) => {
+                            dig_dt(&mut d, &x);
+                            if let Ok(p) = x.project(TimeZoneRef::utc()) {
+                                dig_dt(&mut d, &p);
+                            }
+                        }
+                        Err(e) => d.i(err_code(&e)),
+                    }
+                } else {
+                    let f: [i64; 7] = {
+                        let mut f = [0i64; 7];
+                        let mut ok = true;
+                        for slot in f.iter_mut() {
+                            match num::<i64>(&mut it) {
+                                Some(v) => *slot = v,
+                                None => ok = false,
+                            }
+                        }
+                        if !ok {
+                            continue;
+                        }
+                        f
+                    };
+                    for n in [4usize, 1, 0] {
+                        let mut buf = [None; 4];
+                        match DateTime::find_n(&mut buf[..n], f[0] as i32, f[1] as u8, f[2] as u8, f[3] as u8, f[4] as u8, f[5] as u8, f[6] as u32, z) {
+                            Ok(res) => {
+                                d.i(res.count() as i64);
+                                d.i(res.is_exhaustive() as i64);
+                                for k in res.data().iter().flatten() {
+                                    match k {
+                                        FoundDateTimeKind::Normal(a) => dig_dt(&mut d, a),
+                                        FoundDateTimeKind::Skipped { before_transition, after_transition } => {
+                                            dig_dt(&mut d, before_transition);
+                                            dig_dt(&mut d, after_transition);
+                                        }
+                                    }
+                                }
+                                if let Some(u) = res.unique() {
+                                    dig_dt(&mut d, &u);
+                                }
+                            }
+                            Err(e) => d.i(err_code(&e)),
+                        }
+                    }
+                }
+            }
+            Some("E") => {
+                if usable {
+                    cases += 1;
+                }
+            }
+            _ => {}
+        }
+    }
+    (d, cases)
+}
